@@ -67,6 +67,7 @@ type Node struct {
 	// faults (C13 / C04)
 	FailAt   int // execution index at which the node fails (-1: never)
 	FailKind int
+	FailTag  string // if set, only the run with this tag fails
 	// interrupts
 	RerunN int // number of attempts that answer InterruptAndRerun
 }
